@@ -175,7 +175,7 @@ def _last_day_grid(ctx):
 
 
 def stages(ctx):
-    out = [Stage("incomplete_dates", "hyp", strategy=cases(), examples=ctx.n(30000, 250000))]
+    out = [Stage("incomplete_dates", "hyp", strategy=cases(), examples=ctx.n(60000, 250000))]
     if not ctx.quick:
         out.append(Stage("last_day_grid", "enum", cases=_last_day_grid(ctx), exhaustive=True))
     return out
